@@ -315,7 +315,7 @@ theorem dup_and_missing_entry_converges :
     (checkAll uniSchema true dupMissing.toSt).2.map (fun r => (r.msg, r.fixed)) =
       [(.uqStale n2 a2 n1, true), (.uqMissing n1 a1, true), (.uqDup n1 a1 a2, false)] ∧
     (checkAll uniSchema false (checkAll uniSchema true dupMissing.toSt).1).2.map (·.msg) = [.uqDup n1 a1 a2] :=
-  ⟨dupMissing.wf (by decide), by decide, by decide, by decide⟩
+  ⟨dupMissing.wf (by decide), by rw [run_never_fails]; rfl, by decide, by decide⟩
 
 /-- the failure exit of `processIntegrityFix` is live: called for the second holder in the state the
     first holder's repair produced, it returns the duplicate error -/
@@ -338,7 +338,7 @@ theorem junk_at_missing_value_converges :
     (checkAll uniSchema true junkAtMissing.toSt).2.map (fun r => (r.msg, r.fixed)) =
       [(.sxJunk r1, true), (.sxMissing r1 a1, true)] ∧
     (checkAll uniSchema false (checkAll uniSchema true junkAtMissing.toSt).1).2 = [] :=
-  ⟨junkAtMissing.wf (by decide), by decide, by decide, by decide⟩
+  ⟨junkAtMissing.wf (by decide), by rw [run_never_fails]; rfl, by decide, by decide⟩
 
 /-- and the failure exit of the second pass is live: asked for the value bucket while the plain key
     is still there, it fails -/
@@ -358,6 +358,98 @@ theorem emptied_store_converges :
        .lkDangling b1 a1] ∧
     (checkAllE uniSchema true emptiedStore.toSt).failed = false ∧
     (checkAll uniSchema false (checkAll uniSchema true emptiedStore.toSt).1).2 = [] :=
-  ⟨emptiedStore.wf (by decide), by decide, by decide, by decide⟩
+  ⟨emptiedStore.wf (by decide), by decide, by rw [run_never_fails]; rfl, by decide⟩
+
+/-! ## layered stores: a parent store with plain and extended child stores
+
+  The theorems above hold for EVERY schema — also for one whose store names are child stores: the
+  model reaches the entities of a store only through `ids` / `present` / `evalT` / `setOf` of that
+  store.  What has to be shown for a layered database is that the code's access paths (the shared
+  entities bucket, the scan rule of the filtered cursor, the `ValidIdsCursors` wrapper of an extended
+  store with its initial positioning, `GetEntityBucket` through the child's data path) expose exactly
+  the flat state `p.view L` (C09/Layered.lean); `checkAllL L S fix p = checkAll S fix (p.view L)`. -/
+
+/-- **which ids each store's CheckIntegrity scans**: a loop over `store.IterateValidIds(tx, true)` visits the
+    ids of the view's table, in bucket order — root store, plain child store (parent-only ids dropped
+    by the filtered cursor) and extended child store (dropped by `ValidIdsCursors`: by its initial
+    positioning when the smallest id is parent-only, by `Next` afterwards), for every population -/
+theorem layered_scan_is_view (L : Layering) (p : PSt) (hwf : p.WF) (st : Name) :
+    p.validIds L st = (p.view L).ids st := validIds_eq_view L p hwf st
+
+/-- the store's own presence test, `Eval` and the list cursor read the view as well -/
+theorem layered_access_is_view (L : Layering) (p : PSt) (hwf : p.WF) (st : Name) (id : Id) (f : Name) :
+    p.isEntityPresent L st id = (p.view L).present st id ∧ p.evalT L st id f = (p.view L).evalT st id f ∧
+    p.setOf L st id f = (p.view L).setOf st id f :=
+  ⟨isEntityPresent_eq_view L p hwf st id, evalT_eq_view L p hwf st id f, setOf_eq_view L p hwf st id f⟩
+
+/-- **sound, layered.** A layered database whose indexes mirror its stores — the child stores' indexes
+    mirroring the entities that HAVE child data — yields no report, for every layering and schema:
+    a parent-only entity is not a member of the child store, so no "nil in a non-nullable field". -/
+theorem layered_check_sound (L : Layering) (S : Schema) (p : PSt) (hwf : p.WF) (hinv : Inv S (p.view L)) :
+    (checkAllL L S false p).2 = [] := check_sound S _ (view_wf L p hwf) hinv
+
+theorem layered_check_sound_reports (L : Layering) (S : Schema) (p : PSt) (hwf : p.WF) :
+    ∀ r ∈ (checkAllL L S false p).2, r.about ∈ inconsistencies S (p.view L) :=
+  check_sound_reports S _ (view_wf L p hwf)
+
+/-- **complete, layered** -/
+theorem layered_check_complete (L : Layering) (S : Schema) (p : PSt) (hwf : p.WF) :
+    ∀ d ∈ inconsistencies S (p.view L), ∃ r ∈ (checkAllL L S false p).2, r.about = d :=
+  check_complete S _ (view_wf L p hwf)
+
+/-- **read-only, layered**: the state the access paths expose is unchanged -/
+theorem layered_check_readonly (L : Layering) (S : Schema) (p : PSt) : (checkAllL L S false p).1 = p.view L :=
+  (check_readonly S _).1
+
+/-- **convergent, layered**: one fix run completes and a re-check reports only genuine conflicts -/
+theorem layered_fix_converges (L : Layering) (S : Schema) (hS : SchemaOk S) (p : PSt) (hwf : p.WF) :
+    (checkAllE S true (p.view L)).failed = false ∧
+    ∀ r ∈ (checkAll S false (checkAllL L S true p).1).2, Unfixable S r := by
+  refine ⟨?_, fix_converges S hS _ (view_wf L p hwf)⟩
+  rw [run_never_fails]; rfl
+
+/-- things a0 (parent-only, SMALLEST id), a1 (extension data: badge n1, sponsor b1), a2 (plain-child data:
+    code n2) — a healthy database -/
+def layeredGood : StD :=
+  { ents :=
+      [ (things,
+          [ ⟨[97, 48], [("name", .str [110, 48]), ("home", .str b1), ("req", .str b1)], [("roles", [])]⟩,
+            ⟨a1, [("name", .str n1), ("home", .str b1), ("req", .str b1)], [("roles", [])]⟩,
+            ⟨a2, [("name", .str n2), ("home", .str b1), ("req", .str b1)], [("roles", [])]⟩ ]),
+        (thingsX, [ ⟨a1, [("badge", .str n1), ("sponsor", .str b1)], [("caps", [r1])]⟩ ]),
+        (thingsP, [ ⟨a2, [("code", .str n2)], [("marks", [])]⟩ ]),
+        (owners, [ ⟨b1, [], [("residents", [[97, 48], a1, a2])]⟩ ]) ]
+    uniq := [ ((things, "name"), [([110, 48], [97, 48]), (n1, a1), (n2, a2)]), ((thingsX, "badge"), [(n1, a1)]),
+              ((thingsP, "code"), [(n2, a2)]) ]
+    setx := [ ((thingsX, "caps"), [(r1, .ids [a1])]) ] }
+
+/-- the extended store's scan starts at a1 (the parent-only a0 is skipped by the initial positioning),
+    the plain store's at a2; the check is clean; without the initial positioning the scan would visit
+    a0 and report "nil in the non-nullable badge" on this healthy database -/
+theorem layered_healthy_clean :
+    (layeredGood.toPSt uniLayering).validIds uniLayering thingsX = [a1] ∧
+    (layeredGood.toPSt uniLayering).validIds uniLayering thingsP = [a2] ∧
+    (layeredGood.toPSt uniLayering).validIds uniLayering things = [[97, 48], a1, a2] ∧
+    Inv uniSchema ((layeredGood.toPSt uniLayering).view uniLayering) ∧
+    (checkAllL uniLayering uniSchema false (layeredGood.toPSt uniLayering)).2 = [] ∧
+    (checkAllL uniLayering uniSchema true (layeredGood.toPSt uniLayering)).2 = [] := by decide
+
+/-- the initial positioning is load-bearing: the wrapper returned unpositioned visits a0 -/
+example :
+    drain (validNext ((layeredGood.toPSt uniLayering).isEntityPresent uniLayering thingsX)) 4
+      ((layeredGood.toPSt uniLayering).iterateIds uniLayering thingsX) = [[97, 48], a1] := by decide
+
+/-- a corrupted layered database: the badge entry of a1 is missing, an entry points at the parent-only
+    a0 (dangling for the child store), a2's code entry is stale — all reported, all repaired in one run -/
+def layeredBad : StD :=
+  { layeredGood with
+    uniq := [ ((things, "name"), [([110, 48], [97, 48]), (n1, a1), (n2, a2)]), ((thingsX, "badge"), [(n2, [97, 48])]),
+              ((thingsP, "code"), [(n1, a2)]) ] }
+
+example :
+    (checkAllL uniLayering uniSchema false (layeredBad.toPSt uniLayering)).2.map (·.msg) =
+      [.uqDangling n2 [97, 48], .uqMissing n1 a1, .uqStale n1 a2 n2, .uqMissing n2 a2] ∧
+    (checkAll uniSchema false (checkAllL uniLayering uniSchema true (layeredBad.toPSt uniLayering)).1).2 = [] := by
+  decide
 
 end StorageModel.Properties.C09
